@@ -88,6 +88,19 @@ pub fn toml_text(thorough: bool) -> Report {
         }
     }
     o.put("launch", &LaunchBuilder::new().build(), json!({"processes": [], "labels": [], "slices": []}), &mut r);
+    // a working directory that is not valid UTF-8 cannot be written as a TOML string: the only acceptable outcome is an error
+    {
+        use std::os::unix::ffi::OsStringExt;
+        r.evaluations += 1; r.nontrivial += 1;
+        let mut pb = ProcessBuilder::new("web".parse().unwrap(), ["run"]);
+        pb.working_directory(WorkingDirectory::Directory(PathBuf::from(std::ffi::OsString::from_vec(b"/workspace/caf\xE9".to_vec()))));
+        let mut lb = LaunchBuilder::new(); lb.process(pb.build());
+        let p = o.dir.join("non-utf8-working-dir.toml");
+        if libcnb::write_toml_file(&lb.build(), &p).is_ok() {
+            r.violation("decode", "a working directory that is not valid UTF-8 is reported as an error instead of being written as some other directory", "working directory bytes /workspace/caf\\xE9".into(), "Err, nothing written".into(), format!("Ok: {:?}", std::fs::read_to_string(&p).unwrap_or_default()));
+        }
+        let _ = std::fs::remove_file(&p);
+    }
     // every sequence of up to 3 calls over {label, labels[2], slice, slices[2], process, processes[2]}: each call APPENDS
     {
         let mk_label = |i: usize| Label { key: format!("k{i}"), value: if i % 2 == 0 { String::new() } else { format!("v{i}") } };
